@@ -32,7 +32,8 @@ RULE = ('cases (source, pipeline, action): source = parallelize(xs, n) with len 
         'partitions incl. empty ones; pipeline = hidden tagging stage + 0..4 stages drawn from map/filter/flatMap/sample/'
         'persist/cache/mapPartitions(eager list function)/mapPartitionsWithIndex(generator) with library functions; action = '
         'each of the 10 single-pass actions, take(n) for EVERY n in 0..len(output)+1, first(), isEmpty(); exhaustive block: '
-        'length <= 4, <= 3 slices, depth <= 2 over one representative per stage kind (sampled in the quick tier); '
+        'length <= 4, <= 3 slices, depth <= 2 over one representative per stage kind (sampled in the quick tier; the thorough '
+        'tier adds all depth-3 pipelines over the representatives on two multi-partition sources); '
         'non-trivial = at least one logged user-function call and >= 1 pipeline stage; distinct by canonical JSON')
 ASSUMPTIONS = [
     'local execution (default DummyPool): partitions are evaluated one after the other by the driver',
@@ -477,6 +478,18 @@ def generate(rng, tier):
                     small.append((src, list(st), act))
     if quick:
         small = rng.sample(small, 1400)
+    else:
+        # thorough: depth 3 over the representatives on the multi-partition sources
+        for a in REPR:
+            for b in REPR:
+                for c in REPR:
+                    for xs, n in (([3, -1, 4], 2), ([3, -1, 4, 2], 3)):
+                        src = (0, xs, n)
+                        st = [a, b, c]
+                        if out_len(src, st) > 40:
+                            continue
+                        for act in actions_for(rng, src, st, all_single=False):
+                            small.append((src, st, act))
     cases.extend(small)
     # saveAsTextFile (touches the file system: fewer)
     for _ in range(25 if quick else 300):
@@ -484,7 +497,7 @@ def generate(rng, tier):
         st = [rand_stage(rng) for _ in range(rng.randint(0, 3))]
         cases.append((src, st, (A_SAVE, 0, 0, 0)))
     # random deeper pipelines, irregular partitionings, all take(n)
-    budget = 1600 if quick else 26000
+    budget = 1600 if quick else 40000
     while budget > 0:
         src = rand_src(rng)
         st = [rand_stage(rng) for _ in range(rng.choice([1, 2, 2, 3, 3, 4]))]
